@@ -43,6 +43,10 @@ fn lib_menu() -> Vec<&'static str> {
         "20 PRINT \"t\"\t ",
         "20 PRINT ((((1 + \"A\"))))",
         "30 IF 0 THEN PRINT (((((((((1 + \"A\")))))))))",
+        // a carriage return inside a line is a blank, at its end it belongs to REM / DATA text
+        "20 PRINT \"a\";:\r PRINT \"b\"",
+        "30 REM r\r",
+        "40 DATA x\r",
     ]
 }
 
@@ -132,6 +136,7 @@ fn cli_programs() -> Vec<CliProg> {
         CliProg { name: "colon-only line as a jump target", text: "10 GOTO 30\n20 PRINT \"skipped\"\n30 :\n40 PRINT \"end\";K\n", replies: "", analysis_error: false },
         CliProg { name: "INPUT after an unfinished output line", text: "10 PRINT \"NAME\";\n20 INPUT N$\n30 PRINT \"HI \";N$;\n40 INPUT M: PRINT M + G\n", replies: "BOB\nx\n7\n", analysis_error: false },
         CliProg { name: "INPUT in a loop with surplus items", text: "10 FOR I = 1 TO 2: PRINT I;: INPUT V: PRINT V,: NEXT I\n20 PRINT \"done\"\n", replies: "1,2\n3\n", analysis_error: false },
+        CliProg { name: "runtime error with replies left over", text: "10 INPUT A\n20 PRINT 1 / (A - 5)\n30 INPUT B\n", replies: "5\nPRINT 99\n10 PRINT 77\nRUN\n", analysis_error: false },
         CliProg { name: "long unbroken output", text: "10 FOR I = 1 TO 120: PRINT \"xyz\";: NEXT I\n20 PRINT L\n", replies: "", analysis_error: false },
     ]
 }
